@@ -5,34 +5,53 @@
 (* (conformance).                                                          *)
 (*                                                                         *)
 (* A fixture F (one element of fixtures.json, written by the driver) is    *)
-(*   vals   : sequence of [kind, on, stake]   look-back validator set      *)
-(*   protoV, protoP : ValidatorThreshold / ProposerThreshold of the        *)
-(*            protocol version in force                                    *)
+(*   vals   : sequence of [kind, on, stake]   stake look-back validator set*)
+(*   cvals  : the same identities in the CERTIFICATE look-back set         *)
+(*   protoV, protoP, protoC : ValidatorThreshold / ProposerThreshold /     *)
+(*            CertValThreshold of the protocol version in force            *)
 (*   ths    : the threshold alphabet a forger may declare                  *)
-(*   seat[v][t][i][s][d] : the REAL sortition result of member v under     *)
-(*            threshold ths[t] for (round index i, step s, seed d);        *)
-(*            -1 = the real sortition panics (threshold > online stake)    *)
-(*   voters, prop : the honest header's committee and proposer             *)
+(*   seat[v][t][i][s][d]  : the REAL sortition result of member v under    *)
+(*            threshold ths[t] for (round index i, step s, seed d) with    *)
+(*            the stake / total stake of the stake look-back set;          *)
+(*   cseat[v][t][i][s][d] : ... of the certificate look-back set;          *)
+(*            -1 = the real sortition panics (threshold > online stake);   *)
+(*            steps: 1 proposal, 3 precommit, 5 certificate; seeds: 1 the  *)
+(*            look-back seed of the round, 3 the certificate look-back     *)
+(*            seed, 2 another one                                          *)
+(*   sidx, cidx : position of validator v in the sorted stake / certificate*)
+(*            look-back list; cpos: the validator at a certificate position*)
+(*   certRound : the header is at a multiple of ACoCHTFrequency            *)
+(*   voters, cvoters, prop : the honest header's committees and proposer   *)
 (*                                                                         *)
 (* A header description h is                                               *)
 (*   declV, declP : thresholds declared in header.Consensus                *)
+(*   declC  : CertValThreshold declared by the certificate look-back       *)
+(*            header of the chain (author-declared when it was accepted)   *)
 (*   pidx, vidx   : round index of the consensus data / of the vote list   *)
-(*   prop  : [p, ci, cs, cd, pb, j, prio]   proposer credential presented  *)
-(*   votes : sequence of [v, ci, cs, cd, pb, j, sb, sr, si]                *)
-(*           v = claimed voter (NV+1 = index outside the list); the proof  *)
-(*           was made for message (seed cd, step cs, index ci) with the    *)
-(*           voter's key (pb = "ok"), another member's key ("foreign") or  *)
-(*           has a flipped byte ("corrupt"); j = claimed weight; the BLS   *)
-(*           signature joining the aggregate covers (block sb, round sr,   *)
-(*           index si), sb = 0: no signature of this entry in the aggregate*)
-(*   agg   : "ok" = the aggregate is the sum of those signatures,          *)
-(*           "flip" / "unrelated" = corrupted / a stranger's signature     *)
+(*   prop   : [p, ci, cs, cd, pb, j, prio]   proposer credential presented *)
+(*   votes  : sequence of [v, ci, cs, cd, pb, j, sb, sr, si]  precommits   *)
+(*            v = the validator whose keys made the entry (NV+1 = a        *)
+(*            stranger, listed with an index outside the list); the proof  *)
+(*            was made for message (seed cd, step cs, index ci) with v's   *)
+(*            key (pb = "ok"), another member's key ("foreign") or has a   *)
+(*            flipped byte ("corrupt"); j = claimed weight; the BLS        *)
+(*            signature of v joining the aggregate covers (block sb, round *)
+(*            sr, index si), sb = 0: no signature of this entry            *)
+(*   agg    : "ok" = the aggregate is the sum of those signatures,         *)
+(*            "flip" / "unrelated" = corrupted / a stranger's signature    *)
+(*   cf     : header.Certificate -- "list": cvotes / cagg / cfidx below;   *)
+(*            "absent": zero bytes; "std": the empty list honest plain     *)
+(*            blocks carry; "junk": arbitrary bytes                        *)
+(*   cvotes : certificate votes, as votes plus ls = the list the entry's   *)
+(*            VoterIdx was taken from (1 certificate set, 2 stake set)     *)
+(*   cfidx  : RoundIndex inside the Certificate field                      *)
 (***************************************************************************)
 EXTENDS Integers, Sequences, FiniteSets, TLC, Json
 
 StepProposal  == 1
 StepPrevote   == 2
 StepPrecommit == 3
+StepCert      == 5
 
 NV(F) == Len(F.vals)
 Member(F, v) == v \in 1..NV(F)
@@ -40,15 +59,42 @@ ThIdx(F, T) == CHOOSE t \in 1..Len(F.ths) : F.ths[t] = T
 Seat(F, v, T, i, s, d) == F.seat[v][ThIdx(F, T)][i][s][d]
 Max0(x) == IF x < 0 THEN 0 ELSE x
 
-\* floor(0.685 T) in exact arithmetic (DESIGN section 9, "Quorum")
-Quorum(T) == (T * 685) \div 1000
-
 RECURSIVE SumSeq(_)
 SumSeq(s) == IF s = <<>> THEN 0 ELSE Head(s) + SumSeq(Tail(s))
 
 (***************************************************************************)
+(* A vote-set context X: everything verifyVotes is called with.            *)
+(*   "pre"  : the precommits of header.Validator (step Precommit, stake    *)
+(*            look-back set and seed, declared ValidatorThreshold, 0.685)  *)
+(*   "cert" : the certificates of header.Certificate as the FULL verifier  *)
+(*            checks them (step Certificate, certificate look-back set and *)
+(*            seed, CertValThreshold declared by the certificate look-back *)
+(*            header, 0.585; round index of header.VALIDATOR)              *)
+(*   "ac"   : the same as VerifyAcHeader checks them (round index of the   *)
+(*            Certificate field itself)                                    *)
+(***************************************************************************)
+CertVotes(h) == IF h.cf = "list" THEN h.cvotes ELSE <<>>
+VX(F, h, kind) ==
+   IF kind = "pre"
+   THEN [votes |-> h.votes, cert |-> FALSE, step |-> StepPrecommit, sd |-> 1, idx |-> h.vidx, decl |-> h.declV, proto |-> F.protoV,
+         frac |-> 685, agg |-> h.agg]
+   ELSE [votes |-> CertVotes(h), cert |-> TRUE, step |-> StepCert, sd |-> 3, idx |-> IF kind = "ac" THEN h.cfidx ELSE h.vidx,
+         decl |-> h.declC, proto |-> F.protoC, frac |-> 585, agg |-> h.cagg]
+\* floor(0.685 T) / floor(0.585 T) in exact arithmetic (DESIGN section 9, "Quorum")
+QuorumX(X, T) == (T * X.frac) \div 1000
+Quorum(T) == (T * 685) \div 1000
+SeatX(F, X, v, T, i, s, d) == IF X.cert THEN F.cseat[v][ThIdx(F, T)][i][s][d] ELSE F.seat[v][ThIdx(F, T)][i][s][d]
+ValsX(F, X) == IF X.cert THEN F.cvals ELSE F.vals
+\* the validator the entry NAMES: the one at the listed index of the look-back list of this vote set (0: index outside the list)
+Named(F, X, x) == IF ~Member(F, x.v) THEN 0
+                  ELSE IF ~X.cert THEN x.v
+                  ELSE F.cpos[IF x.ls = 2 THEN F.sidx[x.v] ELSE F.cidx[x.v]]
+\* whose key made the proof
+Prover(F, x) == IF x.pb = "foreign" THEN (x.v % NV(F)) + 1 ELSE x.v
+
+(***************************************************************************)
 (* DESIGN LAYER: what consensus.go does (verifyConsensusFieldMain,         *)
-(* verifyVotes, BLS path), step by step.                                   *)
+(* verifyVotes BLS path, VerifyAcHeader), step by step.                    *)
 (***************************************************************************)
 \* VrfVerifyPriority: ProofToHash binds key and message MakeM(seed, role, index) with index = consensusData.RoundIndex;
 \* j is recomputed with the DECLARED ProposerThreshold; j = 0 is not refused; the priority must be the maximum.
@@ -60,38 +106,47 @@ CodeProposer(F, h) ==
 
 \* the loop of verifyVotes: result [ok, count, pubs]
 RECURSIVE Scan(_, _, _, _, _, _)
-Scan(F, h, n, seen, count, pubs) ==
-   IF n > Len(h.votes) THEN [ok |-> TRUE, count |-> count, pubs |-> pubs]
-   ELSE LET x == h.votes[n] IN
-        IF ~Member(F, x.v) THEN [ok |-> FALSE, count |-> 0, pubs |-> <<>>]         \* RecoverSignerInfo: invalid voter index
-        ELSE IF x.v \in seen THEN Scan(F, h, n + 1, seen, count, pubs)             \* staData[addr]: already counted, key not added
-        ELSE LET pubs2 == Append(pubs, x.v)                                        \* key joins the aggregate check BEFORE the sortition check
-                 binds == x.pb = "ok" /\ x.ci = h.vidx /\ x.cs = StepPrecommit /\ x.cd = 1
-                 jc    == Seat(F, x.v, h.declV, h.vidx, StepPrecommit, 1) IN       \* no test of kind or status; DECLARED threshold
+Scan(F, X, n, seen, count, pubs) ==
+   IF n > Len(X.votes) THEN [ok |-> TRUE, count |-> count, pubs |-> pubs]
+   ELSE LET x == X.votes[n]
+            u == Named(F, X, x) IN
+        IF u = 0 THEN [ok |-> FALSE, count |-> 0, pubs |-> <<>>]                   \* RecoverSignerInfo: invalid voter index
+        ELSE IF u \in seen THEN Scan(F, X, n + 1, seen, count, pubs)               \* staData[addr]: already counted, key not added
+        ELSE LET pubs2 == Append(pubs, u)                                          \* key joins the aggregate check BEFORE the sortition check
+                 binds == /\ x.pb # "corrupt" /\ Prover(F, x) = u                  \* ProofToHash under the NAMED validator's key
+                          /\ x.ci = X.idx /\ x.cs = X.step /\ x.cd = X.sd
+                 jc    == SeatX(F, X, u, X.decl, X.idx, X.step, X.sd) IN           \* no test of kind or status; DECLARED threshold
              IF binds /\ jc = -1 THEN [ok |-> FALSE, count |-> 0, pubs |-> <<>>]   \* panic in choose()
              ELSE IF binds /\ jc > 0 /\ jc = x.j
-                  THEN Scan(F, h, n + 1, seen \cup {x.v}, count + x.j, pubs2)
-                  ELSE Scan(F, h, n + 1, seen, count, pubs2)                       \* skipped, not marked
+                  THEN Scan(F, X, n + 1, seen \cup {u}, count + x.j, pubs2)
+                  ELSE Scan(F, X, n + 1, seen, count, pubs2)                       \* skipped, not marked
 
-\* VerifyAggregatedOne(pubs, payload(this hash, round, vidx), sig): equality of two sums of signatures = equality of bags
-SigBag(h) == [n \in { m \in DOMAIN h.votes : h.votes[m].sb # 0 } |-> <<h.votes[n].v, h.votes[n].sb, h.votes[n].sr, h.votes[n].si>>]
+\* VerifyAggregatedOne(pubs, payload(this hash, round, X.idx), sig): equality of two sums of signatures = equality of bags
+SigBag(X) == [n \in { m \in DOMAIN X.votes : X.votes[m].sb # 0 } |-> <<X.votes[n].v, X.votes[n].sb, X.votes[n].sr, X.votes[n].si>>]
 Occ(f, t) == Cardinality({ n \in DOMAIN f : f[n] = t })
-AggVerifies(h, pubs) ==
-   LET sb == SigBag(h)
-       need == [n \in DOMAIN pubs |-> <<pubs[n], 1, 1, h.vidx>>]
+AggVerifies(X, pubs) ==
+   LET sb == SigBag(X)
+       need == [n \in DOMAIN pubs |-> <<pubs[n], 1, 1, X.idx>>]
        elems == { sb[n] : n \in DOMAIN sb } \cup { need[n] : n \in DOMAIN need } IN
-   /\ h.agg = "ok"
+   /\ X.agg = "ok"
    /\ Len(pubs) > 0 /\ DOMAIN sb # {}     \* the pairing library dereferences nil on the neutral element (no keys / the
                                          \* encoding of the point at infinity as aggregate): the verifier PANICS -- no acceptance
    /\ \A t \in elems : Occ(sb, t) = Occ(need, t)
 
-CodeVotes(F, h) ==
-   LET r == Scan(F, h, 1, {}, 0, <<>>) IN
+CodeVotes(F, X) ==
+   LET r == Scan(F, X, 1, {}, 0, <<>>) IN
    /\ r.ok
-   /\ r.count >= Quorum(h.declV)           \* OverThreshold(count, consensusData.ValidatorThreshold, true)
-   /\ AggVerifies(h, r.pubs)
+   /\ r.count >= QuorumX(X, X.decl)        \* OverThreshold(count, declared threshold, isPos)
+   /\ AggVerifies(X, r.pubs)
 
-CodeAccepts(F, h) == CodeProposer(F, h) /\ CodeVotes(F, h)
+\* the certificate branch: only at certificate rounds; header.Certificate must decode
+CodeCert(F, h, kind) == h.cf = "list" /\ CodeVotes(F, VX(F, h, kind))
+
+CodeAccepts(F, h) == /\ CodeProposer(F, h)
+                     /\ CodeVotes(F, VX(F, h, "pre"))
+                     /\ F.certRound => CodeCert(F, h, "cert")       \* otherwise header.Certificate is not consulted at all
+\* VerifyAcHeader: the CHT certificates only
+CodeAcceptsAC(F, h) == F.certRound /\ CodeCert(F, h, "ac")
 
 (***************************************************************************)
 (* PROPERTY LAYER: written from the statement of C01 only.                 *)
@@ -104,7 +159,10 @@ CodeAccepts(F, h) == CodeProposer(F, h) /\ CodeVotes(F, h)
 (*  block's author), and only if its proposer credential verifies under    *)
 (*  the protocol's proposer threshold.  Duplicated, replayed, non-member,  *)
 (*  offline, wrong-step, wrong-block or weight-inflated votes contribute   *)
-(*  nothing."                                                              *)
+(*  nothing."  Certificate clause (certificate rounds): distinct online    *)
+(*  chamber members of the CERTIFICATE look-back set with valid            *)
+(*  credentials for the certificate step and valid signatures over this    *)
+(*  block carry at least floor(0.585 * CertValThreshold(version in force)).*)
 (*                                                                         *)
 (* Every way in which a listed vote is not entitled is a CLASS; the class  *)
 (* names are the discriminators of the monitor's signatures.               *)
@@ -118,49 +176,59 @@ ClauseOf(c) ==
      [] c = "short" -> "QuorumReached"
      [] OTHER -> "Unclassified"
 VoteClauses == {"VotersEntitled", "DistinctVoters", "CredentialBinds", "SignatureOverBlock", "CommitteeSizeFromProtocol", "QuorumReached"}
+\* all classes of the certificate vote set are reported under one clause, with the class as discriminator
+ClauseX(kind, c) == IF kind = "pre" THEN ClauseOf(c) ELSE IF kind = "cert" THEN "CertificateQuorum" ELSE "AcCertificateQuorum"
 
-\* the aggregate contains voter v's signature over this block's hash, this round and the list's round index
-SignedOK(h, v) == /\ h.agg = "ok"
-                  /\ \E m \in DOMAIN h.votes : h.votes[m].v = v /\ h.votes[m].sb = 1 /\ h.votes[m].sr = 1 /\ h.votes[m].si = h.vidx
+\* the aggregate contains validator u's signature over this block's hash, this round and the round index of the vote set
+SignedOK(X, u) == /\ X.agg = "ok"
+                  /\ \E m \in DOMAIN X.votes : X.votes[m].v = u /\ X.votes[m].sb = 1 /\ X.votes[m].sr = 1 /\ X.votes[m].si = X.idx
 
-\* classes of vote entry n (all but "duplicate", which is a class of the list)
-VLab(F, h, n) ==
-   LET x == h.votes[n] IN
-   (IF ~Member(F, x.v) THEN {"non_member"}
-    ELSE (IF F.vals[x.v].kind # "chamber" THEN {"house_member"} ELSE {})               \* "members of the chamber"
-         \cup (IF ~F.vals[x.v].on THEN {"offline_member"} ELSE {})                     \* "online"
+\* classes of vote entry n (all but "duplicate", which is a class of the list), judged for the validator the entry NAMES
+VLab(F, X, n) ==
+   LET x == X.votes[n]
+       u == Named(F, X, x)
+       vs == ValsX(F, X) IN
+   (IF u = 0 THEN {"non_member"}
+    ELSE (IF vs[u].kind # "chamber" THEN {"house_member"} ELSE {})                     \* "members of the chamber"
+         \cup (IF ~vs[u].on THEN {"offline_member"} ELSE {})                           \* "online"
          \* "weight-inflated": the weight is the seat count under the committee size of the protocol version in force
-         \cup (IF x.j = Seat(F, x.v, F.protoV, h.vidx, StepPrecommit, 1) THEN {}
-               ELSE IF h.declV # F.protoV /\ x.j = Seat(F, x.v, h.declV, h.vidx, StepPrecommit, 1) THEN {"declared_threshold"}
-               ELSE {"inflated_j"}))
-   \cup (IF x.pb = "foreign" THEN {"foreign_proof"} ELSE IF x.pb # "ok" THEN {"corrupt_proof"} ELSE {})   \* "valid sortition proof"
-   \cup (IF x.ci # h.vidx THEN {"wrong_index"} ELSE {})                                \* "for that round/index/step"
-   \cup (IF x.cs # StepPrecommit THEN {"wrong_step"} ELSE {})
-   \cup (IF x.cd # 1 THEN {"wrong_round"} ELSE {})
-   \cup (IF h.agg # "ok" THEN {"bad_aggregate"}                                        \* "a valid signature over that block's hash"
-         ELSE IF SignedOK(h, x.v) THEN {}                                              \* (of the voter, whichever entry carries it)
-         ELSE IF x.sb = 0 THEN {"unsigned"}
+         \cup (IF x.j = SeatX(F, X, u, X.proto, X.idx, X.step, X.sd) THEN {}
+               ELSE IF X.decl # X.proto /\ x.j = SeatX(F, X, u, X.decl, X.idx, X.step, X.sd) THEN {"declared_threshold"}
+               ELSE {"inflated_j"})
+         \cup (IF x.pb # "corrupt" /\ Prover(F, x) # u THEN {"foreign_proof"} ELSE {}))   \* "valid sortition proof" (of that validator)
+   \cup (IF x.pb = "corrupt" THEN {"corrupt_proof"} ELSE {})
+   \cup (IF x.ci # X.idx THEN {"wrong_index"} ELSE {})                                 \* "for that round/index/step"
+   \cup (IF x.cs # X.step THEN {"wrong_step"} ELSE {})
+   \cup (IF x.cd # X.sd THEN {"wrong_round"} ELSE {})
+   \cup (IF X.agg # "ok" THEN {"bad_aggregate"}                                        \* "a valid signature over that block's hash"
+         ELSE IF SignedOK(X, IF u = 0 THEN x.v ELSE u) THEN {}                         \* (of that validator, whichever entry carries it)
+         ELSE IF x.sb = 0 \/ (u # 0 /\ x.v # u) THEN {"unsigned"}
          ELSE (IF x.sb # 1 THEN {"wrong_block"} ELSE {})
               \cup (IF x.sr # 1 THEN {"wrong_round_sig"} ELSE {})
-              \cup (IF x.si # h.vidx THEN {"wrong_index_sig"} ELSE {}))
+              \cup (IF x.si # X.idx THEN {"wrong_index_sig"} ELSE {}))
 
-HasDup(h) == \E m, n \in DOMAIN h.votes : m < n /\ h.votes[m].v = h.votes[n].v
-Present(F, h) == UNION { VLab(F, h, n) : n \in DOMAIN h.votes }
-                 \cup (IF HasDup(h) THEN {"duplicate"} ELSE {})
-                 \cup (IF h.declV # F.protoV THEN {"declared_threshold"} ELSE {})
+NamedOf(F, X, n) == Named(F, X, X.votes[n])
+HasDup(F, X) == \E m, n \in DOMAIN X.votes : m < n /\ NamedOf(F, X, m) = NamedOf(F, X, n)
+Present(F, X) == UNION { VLab(F, X, n) : n \in DOMAIN X.votes }
+                 \cup (IF HasDup(F, X) THEN {"duplicate"} ELSE {})
+                 \cup (IF X.decl # X.proto THEN {"declared_threshold"} ELSE {})
 
 \* weight carried when exactly the classes in C are tolerated (C = {} is the statement itself)
-WeightC(F, h, C) ==
-   LET ok(n) == VLab(F, h, n) \subseteq C IN
+WeightC(F, X, C) ==
+   LET ok(n) == VLab(F, X, n) \subseteq C IN
    IF "duplicate" \in C
-   THEN SumSeq([n \in DOMAIN h.votes |-> IF ok(n) THEN h.votes[n].j ELSE 0])
-   ELSE SumSeq([v \in 1..NV(F) + 1 |->                                    \* "distinct": each voter once, with its best valid entry
-                  LET js == { h.votes[n].j : n \in { m \in DOMAIN h.votes : h.votes[m].v = v /\ ok(m) } } IN
+   THEN SumSeq([n \in DOMAIN X.votes |-> IF ok(n) THEN X.votes[n].j ELSE 0])
+   ELSE SumSeq([w \in 1..NV(F) + 1 |->                                    \* "distinct": each validator once, with its best valid entry
+                  LET u == w - 1
+                      js == { X.votes[n].j : n \in { m \in DOMAIN X.votes : NamedOf(F, X, m) = u /\ ok(m) } } IN
                   IF js = {} THEN 0 ELSE CHOOSE j \in js : \A k \in js : k <= j])
-QuorumC(F, h, C) == IF "declared_threshold" \in C THEN Quorum(h.declV) ELSE Quorum(F.protoV)
-Explains(F, h, C) == WeightC(F, h, C) >= QuorumC(F, h, C)
+QuorumC(X, C) == IF "declared_threshold" \in C THEN QuorumX(X, X.decl) ELSE QuorumX(X, X.proto)
+Explains(F, X, C) == WeightC(F, X, C) >= QuorumC(X, C)
 
-VotesEntitled(F, h) == Explains(F, h, {})
+VotesEntitledX(F, X) == Explains(F, X, {})
+VotesEntitled(F, h) == VotesEntitledX(F, VX(F, h, "pre"))
+CertEntitled(F, h) == VotesEntitledX(F, VX(F, h, "cert"))
+AcEntitled(F, h) == VotesEntitledX(F, VX(F, h, "ac"))
 
 \* the proposer credential "verifies under the protocol's proposer threshold"
 PLab(F, h) ==
@@ -175,11 +243,11 @@ PLab(F, h) ==
    \cup (IF p.cd # 1 THEN {"wrong_round"} ELSE {})
    \cup (IF p.prio # "ok" THEN {"bad_priority"} ELSE {})
 
-Entitled(F, h) == VotesEntitled(F, h) /\ PLab(F, h) = {}
+Entitled(F, h) == VotesEntitled(F, h) /\ PLab(F, h) = {} /\ (F.certRound => CertEntitled(F, h))
 
 (***************************************************************************)
 (* Which clauses does an ACCEPTED header fail?  For the proposer: every    *)
-(* class of its credential.  For the votes: when the entitled weight is    *)
+(* class of its credential.  For a vote set: when the entitled weight is   *)
 (* short, the set of classes that had to be tolerated for the listed votes *)
 (* to reach a quorum -- a minimal explanation; among several minimal       *)
 (* explanations one made of known classes (K) is preferred, so that a      *)
@@ -187,20 +255,26 @@ Entitled(F, h) == VotesEntitled(F, h) /\ PLab(F, h) = {}
 (* class that merely occurs in it.  If nothing explains the acceptance the *)
 (* header was accepted although even the claimed weight is short.          *)
 (***************************************************************************)
-SigOf(c) == "C01/" \o ClauseOf(c) \o "/" \o c
-Expl(F, h) == { C \in SUBSET Present(F, h) : Explains(F, h, C) }
-MinExpl(F, h) == LET E == Expl(F, h) IN { C \in E : \A D \in E : (D \subseteq C) => (D = C) }
-Blamed(F, h, K) ==
-   IF VotesEntitled(F, h) THEN {}
-   ELSE LET M == MinExpl(F, h) IN
+SigX(kind, c) == "C01/" \o ClauseX(kind, c) \o "/" \o c
+Expl(F, X) == { C \in SUBSET Present(F, X) : Explains(F, X, C) }
+MinExpl(F, X) == LET E == Expl(F, X) IN { C \in E : \A D \in E : (D \subseteq C) => (D = C) }
+Blamed(F, X, kind, K) ==
+   IF VotesEntitledX(F, X) THEN {}
+   ELSE LET M == MinExpl(F, X) IN
         IF M = {} THEN {"short"}
-        ELSE IF \E C \in M : \A c \in C : SigOf(c) \in K
-             THEN CHOOSE C \in M : \A c \in C : SigOf(c) \in K
+        ELSE IF \E C \in M : \A c \in C : SigX(kind, c) \in K
+             THEN CHOOSE C \in M : \A c \in C : SigX(kind, c) \in K
              ELSE CHOOSE C \in M : TRUE
-\* set of <<clause, discriminator>>
-Fail(F, h, K) == { <<ClauseOf(c), c>> : c \in Blamed(F, h, K) } \cup { <<"ProposerCredential", c>> : c \in PLab(F, h) }
+FailX(F, h, kind, K) == { <<ClauseX(kind, c), c>> : c \in Blamed(F, VX(F, h, kind), kind, K) }
+\* set of <<clause, discriminator>> for a header accepted by the full verifier / by VerifyAcHeader
+Fail(F, h, K) == FailX(F, h, "pre", K)
+                 \cup (IF F.certRound THEN FailX(F, h, "cert", K) ELSE {})
+                 \cup { <<"ProposerCredential", c>> : c \in PLab(F, h) }
+FailAC(F, h, K) == FailX(F, h, "ac", K)
 FailSig(f) == "C01/" \o f[1] \o "/" \o f[2]
 
-\* total claimed weight of the list, whatever it is worth (used by the generator to rank "tempting" forgeries)
-Claimed(h) == SumSeq([n \in DOMAIN h.votes |-> h.votes[n].j])
+\* total claimed weight of a list, whatever it is worth (used by the generator to rank "tempting" forgeries)
+ClaimedX(X) == SumSeq([n \in DOMAIN X.votes |-> X.votes[n].j])
+MinQ(X) == IF QuorumX(X, X.decl) < QuorumX(X, X.proto) THEN QuorumX(X, X.decl) ELSE QuorumX(X, X.proto)
+TemptingX(X) == ClaimedX(X) >= MinQ(X)
 =============================================================================
